@@ -187,7 +187,8 @@ theorem transform_no_panic (st : SymTab) (u : U) (h : shQuery u = true) :
 /-! ## 1c. evaluation -/
 
 /-- **evaluation never panics**: a query that parsed can be evaluated against any row — null
-    fields, empty sets, no linked rows — with seekable or plain set cursors -/
+    fields, empty sets, no linked rows — in any state of the Symbols' set cursors, with seekable or
+    plain cursors -/
 theorem eval_no_panic (st : SymTab) (u : U) (h : shQuery u = true) (t : T) (ht : postProcess st u = .ok t)
     (seekable : Bool) (env : Env) : (evalBool seekable env t).isPanic = false :=
   (eval_np t).1 ((transform_no_panic st u h).2 t ht) seekable env
